@@ -23,13 +23,19 @@ TRUSTED = ["translator gen/date_gen.py (+ gen/cfun.py, gen/math_gen.py): format 
            "hand model lean/AwsVerif/Model/DateTime.lean (tied by this correspondence run only)",
            "libc gmtime_r / timegm / strftime are MODELLED (proleptic Gregorian calendar, C locale, English names), "
            "not verified: tied by P agreement on the enumerated instants and by the Python datetime oracle"]
-ASSUMPTIONS = ["main run with TZ=UTC in the environment (mktime path of zone-less RFC 822 text then equals timegm); further runs with TZ=XXX-5:30 and TZ=AAA8 cover the zone-independent streams (all UTC formatters, zone-carrying texts, accessors, epoch views); local-time functions are outside the property",
+ASSUMPTIONS = ["libc contract taken over by the model, including the one-line glue of source/posix/time.c (aws_timegm = timegm, aws_gmtime = gmtime_r): "
+               "timegm is total and exact on the whole range, negative results (wall-clock fields before 1970, later shifted back by the "
+               "offset) are legitimate values, not errors; checked by the P streams (edge-offset stream: texts whose fields lie before 1970 "
+               "or beyond the instant's own year) and the oracle, not proved about libc",
+               "main run with TZ=UTC in the environment (mktime path of zone-less RFC 822 text then equals timegm); further runs with TZ=XXX-5:30 and TZ=AAA8 cover the zone-independent streams (all UTC formatters, zone-carrying texts, accessors, epoch views); local-time functions are outside the property",
                "aws_date_time_init_epoch_secs is driven with doubles secs + ms/1000 (ms < 1000, |secs| < 2^53/1000); the double arithmetic itself is compared bit-for-bit in the harness, not proved",
                "as_nanos consistency is claimed where 10^9*secs + 10^6*ms < 2^64 (to 2554-07-21); beyond, aws_timestamp_convert saturates (documented)",
                "int arithmetic of the RFC 822 day field wraps (gcc/x86-64)"]
 RULE = ("per instant t: rt (format then parse the produced text) for 3 formats x full/date-only x explicit/auto-detect, acc; "
         "instants = month boundaries +-1 s (thorough: every year 1970-9999; quick: a seeded slice), leap days, century years, extremes, random; "
         "offset stream: +-hh:mm / +-hhmm (quick: hh 0..23 x selected mm, thorough: all 00..99 x 00..99) on ISO extended/basic and RFC 822; "
+        "edge-offset stream: instants of the first/last 14 h of the range, around the epoch and year boundaries, each written with offsets of both "
+        "signs up to 14 h (thorough 24 h) so that the text's wall-clock fields are before 1970 / in the neighbouring year; "
         "fractions, zone-designator case variants; W stream: mutated / out-of-range / over-long texts, 2-digit years, short buffers; "
         "non-trivial = case contains at least one successful parse of a non-midnight instant or a non-zero offset")
 
@@ -346,6 +352,43 @@ def offset_ops(rng, tier):
     return ops
 
 
+def edge_offset_ops(rng, tier, n_inst=None):
+    """instants of the first / last 14 h of the range, around the epoch and around year boundaries, written with
+    numeric offsets of both signs so that the wall-clock fields in the text lie before 1970 (the intermediate
+    timegm value is negative), after the instant's own day / year, or in the previous year; every text form
+    (ISO extended, ISO basic, RFC 822) under the explicit format and auto-detect"""
+    H14 = 14 * 3600
+    fixed = [0, 1, 59, 60, 3599, 3600, 3601, 17999, 18000, 28799, 28800, 43199, 43200, 50399, 50400, 86399, 86400]
+    k = n_inst if n_inst is not None else (12 if tier == "quick" else 120)
+    inst = fixed + [rng.randrange(H14) for _ in range(k)] + [rng.randrange(H14, 3 * 86400) for _ in range(k // 2)]
+    inst += [MAXT - x for x in fixed] + [MAXT - rng.randrange(H14) for _ in range(k)]
+    for y in [1971, 1972, 2000, 2001, 2038, 2100, 9999] + rng.sample(range(1973, 9999), k // 2):
+        t0 = month_start(y, 1)
+        inst += [t0, t0 - 1, t0 + rng.randrange(H14), t0 - 1 - rng.randrange(H14)]
+    if tier == "thorough":
+        offs = [(h, m) for h in range(0, 24) for m in (0, 1, 15, 29, 30, 45, 59)]
+    else:
+        offs = [(h, m) for h in range(0, 15) for m in (0, 30, 45)] + [(14, 59), (23, 59), (5, 30), (9, 1), (0, 1), (12, 45)]
+    forms = [("ext", True, ("iso8601", "auto")), ("ext", False, ("iso8601", "auto")), ("basic", False, ("iso8601_basic", "auto")),
+             ("basic", True, ("iso8601_basic", "auto")), ("rfc", False, ("rfc822", "auto"))]
+    ops, j = [], 0
+    for t in inst:
+        if not (0 <= t <= MAXT):
+            continue
+        for (h, m) in offs:
+            off = h * 3600 + m * 60
+            for sg in "+-":
+                local = t + off if sg == "+" else t - off      # wall-clock fields written in the text
+                if not (-62135596800 <= local <= MAXT):
+                    continue
+                sel = forms if tier == "thorough" else [forms[j % len(forms)], forms[(j + 2) % len(forms)]]
+                j += 1
+                for style, colon, pfs in sel:
+                    z = "%s%02d%s%02d" % (sg, h, ":" if colon else "", m)
+                    ops.append(f"parse {hx(body(local, style) + z)} {pfs[j % 2]}")
+    return ops
+
+
 def designator_ops(rng, n):
     ops = []
     zones = case_variants("z") + case_variants("ut") + case_variants("utc") + case_variants("gmt")
@@ -524,6 +567,7 @@ def gen_cases(rng, tier):
     cases += chunk(ops, 60, {"stream": "roundtrip"})
     cases += chunk(acc_ops(rng, spec + rng.sample(inst, min(len(inst), 3000 if tier == "quick" else 60000)) + rnd[:2000]), 60, {"stream": "acc"})
     cases += chunk(offset_ops(rng, tier), 50, {"stream": "offset"})
+    cases += chunk(edge_offset_ops(rng, tier), 50, {"stream": "edge-offset"})
     cases += chunk(designator_ops(rng, 20 if tier == "quick" else 200), 50, {"stream": "designator"})
     cases += chunk(fraction_ops(rng, 3000 if tier == "quick" else 30000), 50, {"stream": "fraction"})
     cases += chunk(w_ops(rng, 12000 if tier == "quick" else 200000), 50, {"stream": "w"})
@@ -562,6 +606,7 @@ def gen_cases_tz(rng, tier, tz):
         zops.append(f"parse {hx(py_fmt(t, 'iso8601_basic', True))} iso8601_basic")
     cases += chunk(zops, 50, tags("tz-zero-offset"))
     cases += chunk(offset_ops(rng, "quick"), 50, tags("tz-offset"))
+    cases += chunk(edge_offset_ops(rng, "quick", n_inst=2), 50, tags("tz-edge-offset"))
     cases += chunk(designator_ops(rng, 2), 50, tags("tz-designator"))
     return cases
 
